@@ -134,6 +134,18 @@ func (w *world) deliver(c pb.Chunk, tag deliverTag) {
 		return
 	}
 
+	if tag.src.degenerate && !ok {
+		// a chunk whose announced file name is no file name is an invalid chunk:
+		// ignored without effect (in particular it does not replace a stream in
+		// progress)
+		if len(changes) > 0 || len(w.notes) != notesBefore || len(w.confirms) != confBefore {
+			w.ctx.Violate(Prop, "rejected-chunk-had-effect", "chunk %s with a file name that is no file name was refused but the disk changed: %s", tag.desc, shorten(changes))
+			return
+		}
+		w.ctx.Count("ev.degenerate_name_ignored", 1)
+		return
+	}
+
 	inKey := func(ch string) bool {
 		p := ch[1:]
 		return strings.HasPrefix(p, path.Join(root, server.GetSnapshotDirName(rc.Index)))
